@@ -102,7 +102,9 @@ fn enumerate_c02(
             base_cfg
         };
         let plan = PostPlan {
-            writes: vec![20],
+            // a quarter of the points write a value of several log blocks first (a record of several
+            // fragments appended to whatever log the recovery decided to keep using)
+            writes: if (h >> 6) % 4 == 0 { vec![40_000, 20] } else { vec![20] },
             reuse1: (h >> 3) & 1 == 1,
             reuse2: (h >> 4) & 1 == 1,
             dircheck,
